@@ -560,4 +560,73 @@ def view (h : Heap) : Nat → Val → List String
     | none => ["?"]
     | some o => (kindStr o.kind ++ "{") :: viewWith (view h n) o.slots ++ ["}"]
 
+/-! ## Checkable forms of the hypotheses of the C11 theorems
+
+Executable so that the driver can evaluate them on the heaps of the correspondence programs and the proofs can
+discharge them by `decide` on concrete worlds; their soundness lemmas are in `Proofs/Lemmas/HeapCheck.lean`. -/
+
+/-- A step is *local* when the objects it creates reference only objects reachable from the same root
+    (no `Src.ext`). -/
+def srcsLocal : List (String × Src) → Bool
+  | [] => true
+  | (_, .ext _) :: _ => false
+  | _ :: ss => srcsLocal ss
+
+def Step.isLocal (s : Step) : Bool :=
+  match s.edit with
+  | .bindNew _ _ srcs => srcsLocal srcs
+  | _ => true
+
+/-- All steps of a history are local (create no reference to an object outside the root's own reach). -/
+def stepsLocal (steps : List Step) : Bool := steps.all Step.isLocal
+
+def ctorKeys (cd : ClassDesc) (names : List String) : List String :=
+  (if cd.alias then ["aliases", "preferred_names"] else []) ++
+  (if cd.base = .linker then ["submodels", "name", "_LAGS", "_LEADS"] else []) ++
+  ["span", "index", "_strict", "_attributes"] ++
+  (if cd.base = .container then []
+   else ["dtype", "_status", "_iterations", "names"] ++ names.map (fun x => "_" ++ x) ++ ["lags", "leads"]) ++
+  (if cd.base = .container then [] else ["endogenous", "check"] ++ (if cd.base = .model then ["engine"] else [])) ++
+  (if cd.tracer then ["_trace"] else [])
+
+def refsBelow (n : Nat) : List (String × Val) → Bool
+  | [] => true
+  | (_, .ref c) :: ss => decide (c < n) && refsBelow n ss
+  | (_, .imm _) :: ss => refsBelow n ss
+
+def wfB (h : Heap) : Bool := h.all fun o => refsBelow h.length o.slots
+
+def noRefs (ss : List (String × Val)) : Bool := refsBelow 0 ss
+
+/-- Every class-level attribute that is an object holds immutable entries only. -/
+def classOKB (h : Heap) (cd : ClassDesc) : Bool :=
+  decide (cd.attrs < h.length) &&
+  match h[cd.attrs]? with
+  | none => true
+  | some a => a.slots.all fun kv =>
+    match getObj h kv.2 with
+    | none => true
+    | some o => noRefs o.slots
+
+def keysOf (o : Obj) : List String := o.slots.map Prod.fst
+
+/-- The per-instance conditions of `WorldOK2`. -/
+def instOKB (cs : List ClassDesc) (h : Heap) (o : Obj) : Bool :=
+  match o.kind with
+  | .inst ci =>
+    decide (keysOf o).Nodup &&
+    (match getObj h ((o.slots.lookup "submodels").getD (.imm .none)) with
+      | none => true
+      | some d => decide (d.kind = .dict)) &&
+    (match cs[ci]? with
+      | none => true
+      | some cd =>
+        (decide (cd.base = .container) ||
+          (decide ("endogenous" ∈ keysOf o) && decide ("check" ∈ keysOf o))) &&
+        (ctorKeys cd (modelNames h cd)).all fun k => decide (k ∈ keysOf o))
+  | _ => true
+
+def worldOK2B (cs : List ClassDesc) (h : Heap) : Bool :=
+  wfB h && cs.all (classOKB h) && h.all (instOKB cs h)
+
 end Fsic.Heap
